@@ -19,7 +19,7 @@ CHECKS = {
          "Every Search call is compared, as a multiset of (index, segment) callbacks, with a brute-force scan of the index-free series using the harness' own box test; early stop is checked at four stop positions; sizes cross every item-width and node-split boundary up to 70000 points; predicates and Move()d shapes are compared across index configurations.",
          "Trusted: NumSegments/SegmentAt of the index-free series (checked separately by C18); index bytes are never decoded.", "6 C04"),
  "C05": ("totality monitors: recover()-based panic monitor, step-budget hook in the Line.ContainsLine walk, no-progress watchdog with isolated confirmation, Parse object-xor-error, journal for process-fatal events (thorough tier under -race/checkptr)",
-         "All 21 operation groups (every method of Object, Spatial, Collection, geometry.Geometry, Series) are executed on ordered pairs of degenerate constructor objects, random trees, adversarial line pairs and parsed objects; Parse is driven with grammar documents, every structural mutant class, byte corruptions, every-offset truncations and nesting up to 5000/20000 under 17 option combinations. A panic, an exceeded step budget, a confirmed hang, a crash or a (nil,nil)/(obj,err) result is a violation.",
+         "All 22 operation groups (every method of Object, Spatial, Collection, geometry.Geometry, Series) are executed on ordered pairs of degenerate constructor objects, random trees, adversarial line pairs and parsed objects; Parse is driven with grammar documents, every structural mutant class, byte corruptions, every-offset truncations and nesting up to 5000/20000 under 17 option combinations. A panic, an exceeded step budget, a confirmed hang, a crash or a (nil,nil)/(obj,err) result is a violation.",
          "'Never loops forever' is restated as bounded progress (step budget + 90 s no-progress watchdog); unbounded liveness is out of reach of any finite run.", "6 C05"),
  "C06": ("round-trip monitor: Parse/JSON/Parse fixpoint + differential comparison of the output with an independent reading of the input",
          "Each accepted grammar-generated text is serialised, reparsed and reserialised (byte equality, same Go kind, equal predicate answers against 14 probes) and the output is decoded by the reference reader and compared with the reference reading of the input: type, x/y bit for bit, z/m, child order, ordered foreign members, properties on Features. Known finding F10 (Circle objects) is matched narrowly.",
